@@ -26,11 +26,11 @@ import (
 // (MQTT 4.4), any other PUBLISH is not.
 
 type URPhase struct {
-	PQ   []byte `json:"pq"`            // publish QoS of each message of this connection
-	Ack  []int  `json:"ack"`           // per message: 0 = no acknowledgement at all, 1 = first step only (PUBREC without PUBCOMP; for QoS 1 the same as 0), 2 = complete
-	End  string `json:"end"`           // close | disconnect
-	Resub byte  `json:"resub"`         // after the resume: 0 = nothing, 1 = SUBSCRIBE the filter again at the same QoS, 2 = at the other QoS (1 <-> 2)
-	Size []int  `json:"size,omitempty"`
+	PQ    []byte `json:"pq"`    // publish QoS of each message of this connection
+	Ack   []int  `json:"ack"`   // per message: 0 = no acknowledgement at all, 1 = first step only (PUBREC without PUBCOMP; for QoS 1 the same as 0), 2 = complete
+	End   string `json:"end"`   // close | disconnect
+	Resub byte   `json:"resub"` // after the resume: 0 = nothing, 1 = SUBSCRIBE the filter again at the same QoS, 2 = at the other QoS (1 <-> 2)
+	Size  []int  `json:"size,omitempty"`
 }
 
 type URCase struct {
